@@ -271,6 +271,7 @@ func (g *bhGenerator) genProgram(depth int, origin int, self int) []bhInstr {
 			if r.Chance(6) {
 				p.A = "0"
 			}
+			p.NV = r.Chance(85)
 			out = append(out, p)
 		default:
 			if depth > 0 {
@@ -631,7 +632,14 @@ func (g *bhGenerator) genTx(h *histRun, b *bhBlock, blockIdx, i int) *bhTx {
 		}
 	case "authzgrant":
 		t.V = pickVal()
-		if t.T != t.F {
+		if r.Chance(45) {
+			// the grantee is a script contract: its staking precompile calls for the signer (and for itself: the
+			// precompile wants the signer's grant whenever the caller is not the signer) can then succeed
+			t.T = bhNU + r.Intn(bhNC)
+			if r.Chance(50) {
+				t.S = "undelegate"
+			}
+		} else if t.T != t.F {
 			g.grants = append(g.grants, [3]int{t.F, t.T, t.V})
 		}
 	case "authzexec":
